@@ -216,7 +216,7 @@ RULES = [
 
 def rule_mustpass(ctx):
     from . import mustpass
-    mustpass.check(ctx, ['init-runs'])
+    mustpass.check(ctx, ['init-runs', 'add-model-spawns-loop', 'add-model-registers', 'sim-init-add-model-delegates', 'add-submodel-delegates'])
 
 
 RULES.append(("C16.e", "must-pass-through: no path around the effects this property rests on (added fast paths / early returns)", rule_mustpass))
